@@ -37,7 +37,7 @@ class C04H(Prop):
     case_ms = 20000
 
     def streams(self, tier, rng):
-        n = {"quick": 8000, "search": 20000, "thorough": 200000}[tier]
+        n = {"quick": 20000, "search": 50000, "thorough": 200000}[tier]
         yield "deb822-store", gen_store.corpus_cases()
         yield "deb822-store", gen_store.store_cases(n, rng, "h")
         yield "deb822-store", gen_store.store_cases(n // 3, rng, "a", wf=False, canon=False)
